@@ -288,3 +288,6 @@ STANDINS = [standins.c13_merges]
 
 from . import C13lib     # noqa: E402
 UNITS = UNITS + C13lib.UNITS      # library level: Update, the group-reading loops of _do_load, order/nesting lemma
+
+from . import C05init     # noqa: E402
+UNITS = UNITS + C05init.UNITS[:1]      # coupling invariant of ThermochemIncomplete (constructor / _setup_correlation), default-table frame
